@@ -171,6 +171,8 @@ func taScenarios(thorough bool) []*scenario {
 	add("ta/full-ancestors/B9000-B2500-B2500+update", machine16(), std,
 		pods(&tmpl{name: "B9000", cpuReq: 9000, cpuLim: 10000, memLim: 200 * miB}, &tmpl{name: "B2500", cpuReq: 2500, cpuLim: 3000, memLim: 200 * miB}, &tmpl{name: "B2500", cpuReq: 2500, cpuLim: 3000, memLim: 200 * miB}),
 		menu{stop: true, update: true}, []updSpec{{label: "to-4000m", cpuReq: 4000, cpuLim: 4500, memLim: 200 * miB}, {label: "to-2500m", cpuReq: 2500, cpuLim: 3000, memLim: 200 * miB}})
+	// a container with more exclusive CPUs than a socket has: its grant sits in the root pool, two levels above the leaves
+	add("ta/root-grant/G9-G1", machine16(), std, pods(&tmpl{name: "G9", cpuReq: 9000, cpuLim: 9000, memLim: 200 * miB}, tG1), menu{stop: true, remove: true}, nil)
 	add("ta/iso/G1-G2-B500", machine16iso(), std, pods(tG1, tG2, tB500), menu{stop: true, remove: true, sync: true}, nil)
 	add("ta/avail/G2-G1500-BE", machine16(), []cfgSpec{taCfg("avail", taAvailable("cpuset:0-6,8-14"), taReserved("cpuset:0"))}, pods(tG2, tG1500, tBE), menu{stop: true, remove: true}, nil)
 	add("ta/8cpu/G3-B1500-B500", machine8(), std, pods(tG3, tB1500, tB500), menu{stop: true, remove: true}, nil)
@@ -1066,6 +1068,14 @@ func c16PoolCases(thorough bool) []*scenario {
 									return false
 								}
 								s.Extras = []sysgen.Extra{{MemKB: 16 << 20, CloseTo: []int{0}}, {MemKB: 16 << 20, CloseTo: []int{nnodes - 1}}, {MemKB: 1 << 20, CloseTo: []int{0, 1}}}
+								return true
+							},
+							func(s *sysgen.Spec) bool {
+								// a CPU-less node equally close to DRAM nodes whose ids are not adjacent (a farther one lies between)
+								if nnodes < 3 {
+									return false
+								}
+								s.Extras = []sysgen.Extra{{MemKB: 16 << 20, CloseTo: []int{0, 2}}, {MemKB: 16 << 20, CloseTo: []int{0, nnodes - 1}}}
 								return true
 							},
 							func(s *sysgen.Spec) bool {
